@@ -1,8 +1,11 @@
 """C07 — well-formed commit and group-metadata messages are decoded exactly."""
 import json
+import os
 
 import common as C
 import wiregen as W
+
+WORKERS = 16      # goroutines of the concurrent stream (the real reader runs one partitionConsumer goroutine per partition)
 
 
 def classify(tags):
@@ -44,6 +47,88 @@ def run_cases(chk, cases, tags, expected, pybytes, name):
     return impl, model, mism, bad
 
 
+def gen_concurrent(rng, n):
+    """n well-formed messages for ONE module (no lists), each with a group name of its own and long strings no other case
+    shares: (cases, tags, expected)."""
+    cfg = W.rnd_cfg(rng)
+    cases, tags, expected = [], [], []
+    for i in range(n):
+        ln, tg, exp, _k, _v = W.gen_valid(rng, cfg=cfg, lists=(0, 0), unique=i)
+        cases.append(ln)
+        tags.append(tg)
+        expected.append(exp)
+    return cases, tags, expected
+
+
+def conc_results(cases, expected, impl, model):
+    """Indices of the cases whose concurrent result is not the sequential one: [(i, why)]."""
+    bad = []
+    for i, (c, a, m) in enumerate(zip(cases, impl, model)):
+        got = W.project(a.split("=>", 1)[1].strip() if "=>" in a else a)
+        want_model = W.project(m.split("=>", 1)[1].strip() if "=>" in m else m)
+        if got != want_model or (expected[i] is not None and got != expected[i]):
+            bad.append((i, "decoded concurrently with other messages the implementation emitted %r; alone (model, and the "
+                           "property's words) the message stands for %r" % (got[:700], (expected[i] or want_model)[:700])))
+    return bad
+
+
+def run_race(chk, cases, name):
+    """The concurrent stream on a probe built with -race; returns (impl lines or None, race report or None)."""
+    binp, err = C.build_probe("wire", race=True)
+    if binp is None:
+        raise C.BuildError("wire probe does not build with -race:\n" + (err or "")[-2000:])
+    cpath = os.path.join(chk.work, name + ".txt")
+    ipath = os.path.join(chk.work, name + ".impl")
+    open(cpath, "w").write("\n".join(cases) + "\n")
+    if os.path.exists(ipath):
+        os.remove(ipath)
+    rc, out = C.run_probe(binp, "TestVerifProbeWire", cpath, ipath, mem_kb=1 << 40,
+                          extra_env={"VERIF_WIRE_CONC": str(WORKERS), "VERIF_WIRE_ROUNDS": "2"})
+    impl = open(ipath).read().splitlines() if os.path.exists(ipath) else None
+    report = None
+    if "DATA RACE" in out:
+        i = out.index("WARNING: DATA RACE")
+        report = out[i:i + 3000]
+    elif rc != 0:
+        report = "race-instrumented probe exited %s:\n%s" % (rc, out[-2000:])
+    return impl, report
+
+
+def run_concurrent(chk):
+    """Re-entrancy of the decoder: the per-partition partitionConsumer goroutines call processConsumerOffsetsMessage at the
+    same time.  The same kind of messages as the valid stream, pushed through ONE module from WORKERS goroutines at once
+    (3 rounds), requests attributed to messages by their unique group names; every result must be the sequential one."""
+    n = 1200 if not chk.thorough else 20000
+    cases, tags, expected = gen_concurrent(chk.rng, n)
+    impl, model, _mism = chk.differential("wire", "wire", "TestVerifProbeWire", cases, name="concurrent", project=W.project,
+                                          extra_env={"VERIF_WIRE_CONC": str(WORKERS)})
+    chk.count("concurrent:messages", len(cases))
+    chk.count("concurrent:goroutines", WORKERS)
+    for a in impl:
+        if "OK 0" not in a.split("=>", 1)[-1][:6]:
+            chk.count("concurrent:messages-with-requests")
+    bad = conc_results(cases, expected, impl, model)
+    for (i, why) in bad[:3]:
+        chk.violation("concurrent_%d" % i, {"kind": "concurrent", "probe": "consumer/TestVerifProbeWire", "goroutines": WORKERS,
+                                            "case": cases[i], "case_index": i, "cases": cases, "expected_all": expected,
+                                            "key_hex": kv_hex(impl[i])[0], "value_hex": kv_hex(impl[i])[1],
+                                            "impl_output": impl[i], "model_output": model[i], "expected": expected[i],
+                                            "failing_cases_in_batch": len(bad),
+                                            "broken": "re-entrancy of consumer.processConsumerOffsetsMessage (C07 under concurrent "
+                                                      "decoding)", "oracle_verdict": why,
+                                            "cmd": "bin/check C07 --replay <this file>"})
+    if chk.thorough and not bad:
+        rimpl, report = run_race(chk, cases[:4000], "concurrent_race")
+        chk.count("concurrent:race-detector-messages", min(len(cases), 4000))
+        if report:
+            chk.violation("concurrent_race", {"kind": "concurrent", "probe": "consumer/TestVerifProbeWire (-race)",
+                                              "goroutines": WORKERS, "case": cases[0], "cases": cases[:4000],
+                                              "expected_all": expected[:4000], "race": True,
+                                              "broken": "re-entrancy of consumer.processConsumerOffsetsMessage (data race)",
+                                              "oracle_verdict": report, "cmd": "bin/check C07 --replay <this file>"})
+    return len(bad)
+
+
 def run(chk, failed):
     n = 2500 if not chk.thorough else 100000
     cases, tags, expected, pybytes = [], [], [], []
@@ -70,8 +155,11 @@ def run(chk, failed):
                 "topics x 0-6 partitions, null / empty / present assignment, subscription and user data, allow/deny lists from a "
                 "pattern pool); each is encoded by three independent encoders (Coq WireEnc extracted, Go in the probe, Python) "
                 "which must agree byte for byte, decoded by the real processConsumerOffsetsMessage and by the model; plus `re` "
-                "cases tying the accept oracle to the real regexp; non-trivial = the implementation emitted at least one storage "
-                "request; distinct by the case line")
+                "cases tying the accept oracle to the real regexp; the consumer module's own name differs from its configured cluster "
+                "in 4 of the 6 configurations used (every request must name the cluster). Then the concurrent stream: 1200 "
+                "(thorough 20000) further messages with unique group names and long distinct strings through ONE module from "
+                "16 goroutines at once, 3 rounds, each result compared with the sequential one (thorough: also under the race "
+                "detector); non-trivial = the implementation emitted at least one storage request; distinct by the case line")
     impl, model, mism, bad = run_cases(chk, cases, tags, expected, pybytes, "valid")
     for i in (0, len(cases) // 3, 2 * len(cases) // 3, len(cases) - 1):
         chk.sample({"case": cases[i][:600], "impl": impl[i][:600], "model": model[i][:600]})
@@ -97,7 +185,8 @@ def run(chk, failed):
                                        "key_hex": kv_hex(impl[i])[0], "value_hex": kv_hex(impl[i])[1],
                                        "broken": "corr:consumer.processConsumerOffsetsMessage", "oracle_verdict": why,
                                        "cmd": "bin/check C07 --replay <this file>"})
-    if failed and not mism and not bad:
+    nconc = run_concurrent(chk)
+    if failed and not mism and not bad and not nconc:
         chk.violation("obligation", {"kind": "theorem", "broken": [n for n, _ in failed],
                                      "detail": [d for _, d in failed]}, found_input=False)
     chk.assumptions += [
@@ -107,6 +196,9 @@ def run(chk, failed):
         "the allow/deny oracle is a pool of 6 patterns whose meaning is re-implemented in the driver; `re` cases compare it with "
         "the real regexp through acceptConsumerGroup",
         "httpserver.DeleteConsumerMetrics (Prometheus side effect of a metadata tombstone) is not modelled",
+        "re-entrancy: in the model the decoder is a pure function of (configuration, key, value, offset), so concurrent calls "
+        "cannot interfere; that the Go decoder shares no mutable state between calls is established by the concurrent stream "
+        "(and the race detector in the thorough tier), not by proof",
     ]
 
 
@@ -114,6 +206,22 @@ def replay(path):
     import framework
     obj = json.load(open(path))
     chk = framework.Check(obj.get("property", "C07"), "quick", obj.get("seed", 1))
+    if obj.get("kind") == "concurrent":
+        cases, expected = obj["cases"], obj.get("expected_all") or [None] * len(obj["cases"])
+        if obj.get("race"):
+            _impl, report = run_race(chk, cases, "replay_race")
+            print("race detector:", report or "no race reported")
+            return 1 if report else 0
+        impl, model, _m = chk.differential("wire", "wire", "TestVerifProbeWire", cases, name="replay_concurrent",
+                                           project=W.project, extra_env={"VERIF_WIRE_CONC": str(obj.get("goroutines", WORKERS)),
+                                                                         "VERIF_WIRE_ROUNDS": "5"})
+        bad = conc_results(cases, expected, impl, model)
+        print("%d messages, %s goroutines, 5 rounds: %d message(s) decoded differently from the sequential result"
+              % (len(cases), obj.get("goroutines", WORKERS), len(bad)))
+        for (i, why) in bad[:3]:
+            print("case %d: %s" % (i, cases[i][:400]))
+            print("  ", why[:1500])
+        return 1 if bad else 0
     case = obj["case"]
     impl, model, mism = chk.differential("wire", "wire", "TestVerifProbeWire", [case], name="replay", project=W.project)
     exp = obj.get("expected")
